@@ -59,7 +59,7 @@ def _eq_lib(a, b):
 def lib_cases(ctx):
     rng = ctx.rng
     terms, keep = [], []
-    for _ in range(ctx.n(150, 2000)):
+    for _ in range(ctx.n(110, 2000)):
         el = rng.choice(list(ELS))
         net = pp.create_empty_network(add_stdtypes=False) if False else _empty()
         net.std_types[el].clear()
@@ -218,7 +218,7 @@ def created_cases(ctx):
     for el in ELS:
         names = list(basic[el])
         if ctx.tier == "quick" and el == "line":
-            names = rng.sample(names, 25)
+            names = rng.sample(names, 18)
         todo += [(el, n, dict(basic[el][n])) for n in names]
         todo += [(el, "R%d" % k, rand_type(rng, el)) for k in range(ctx.n(12, 150))]
     for el, name, ty in todo:
@@ -286,7 +286,7 @@ def created_cases(ctx):
 def change_cases(ctx):
     rng = ctx.rng
     terms, keep = [], []
-    for _ in range(ctx.n(100, 1200)):
+    for _ in range(ctx.n(80, 1200)):
         el = rng.choice(["line", "trafo", "trafo", "trafo3w"])
         single, par, nodes = CREATE[el]
         t_old, t_new = rand_type(rng, el), rand_type(rng, el)
@@ -372,7 +372,7 @@ def lines_list_cases(ctx):
     rng = ctx.rng
     acc = inspect.signature(pp.create_line_from_parameters).parameters
     basic = list(_empty().std_types["line"])
-    for _ in range(ctx.n(40, 500)):
+    for _ in range(ctx.n(30, 500)):
         net = _empty()
         pp.create_buses(net, 5, 20.0)
         names = []
